@@ -31,6 +31,10 @@ def NumOps.number (N : NumOps) (bits : Nat) : Json :=
 
 /-! ### text -/
 
+/-- the characters a JSON number is written with -/
+def isNumChar (c : Char) : Bool :=
+  c.isDigit || c == '+' || c == '-' || c == '.' || c == 'e' || c == 'E'
+
 def txt (s : String) : List Char := s.toList
 
 /-- `Itertools::join` / `[..].join(sep)` on texts -/
